@@ -10,6 +10,7 @@ ENTRY = {
         level_note="The property's clause about every call path statically reachable from the read entry points is a static reachability question that generated inputs cannot decide; "
                    "covered instead: every exported read entry point x outcome class x writer stage. A read that does not finish is only a violation if the goroutine dump shows it "
                    "blocked in a sync/channel primitive below a fox frame; otherwise exit 2.",
+        level_more='Later additions: uncommon verbs with roots of their own, refused and aborted writes right before the writer parks, readers pinned to an older tree, prefix probes and uncommon verbs through read-only transactions.',
         rule="cases: (read entry point, writer stage, option set) triples; every triple is non-trivial (a writer is parked); distinct by the triple",
         assumptions=["20 s is enough for a lock-free read on any machine; the verdict is the goroutine state, not the timeout"],
         quick=[REPLAY,
